@@ -246,6 +246,14 @@ def w2n_stim(draw, cfg, max_acc):
                 break
             ops.append(op)
     sl = draw(slave_sched())
+    if allow_abort and draw(st.booleans()):
+        # a cycle dropped while its native command is still waiting to be accepted, and the next access right behind it:
+        # long command stalls on the native side, short waits before the abort, one idle cycle after it
+        sl["ready"] = draw(st.sampled_from([[1, 9], [2, 14], [1, 20], [0, 8, 1, 12]]))
+        for op in ops:
+            if op.get("abort_after") is not None:
+                op["abort_after"] = op["abort_after"] % 7
+                op["abort_idle"] = 1
     if cfg["bus_dw"] != cfg["port_dw"]:
         # stream-style native ports (data accepted ahead of its command) are generated only where the repository composes the bridge with such a
         # port: bus and port of equal width on the user side of a converter / CDC / ECC port (gen.py). The bridge's own converters are always
@@ -349,6 +357,9 @@ def devices():
     for bus, port in ((32, 32), (64, 64), (8, 8), (32, 8), (64, 32), (64, 16), (32, 64), (32, 128), (32, 256), (8, 32), (16, 128), (64, 8)):
         for base in (0, 0x10000000):
             out.append(dict(kind="w2n", bus_dw=bus, port_dw=port, base=base))
+        if bus < port:
+            # "any base address": aligned to the bus word but not to the (wider) native word
+            out.append(dict(kind="w2n", bus_dw=bus, port_dw=port, base=0x10000000 + (bus // 8) * (1 if port // bus == 2 else 3)))
     for addressing in ("word", "byte"):
         for base, aw in ((0, 20), (0x4000, 20), (0x40000000, 24), (0x80000000, 10), (0x10000000, 26 if addressing == "word" else 24)):
             out.append(dict(kind="n2w", bus_dw=32, port_dw=32, addressing=addressing, base=base, aw=aw))
